@@ -148,7 +148,7 @@ func runBlockDecoder(p *core.Program, fn *ssa.Function, typ string, blockLen, cr
 				}
 				if ex, ok := other.(*ssa.Extract); ok && ex.Index == 1 {
 					if c, ok := ex.Tuple.(*ssa.Call); ok && core.NameIs(core.CalleeName(c), bp7+".calculateCRCBuff") {
-						if t, ok := st.Known(core.CallArgs(c)[1]); ok {
+						if t, ok := st.Known(core.Arg(c, 1)); ok {
 							bad := t < 0 || t > 2
 							v := int64(0)
 							if bad == (x.Op == token.NEQ) {
@@ -173,7 +173,7 @@ func runBlockDecoder(p *core.Program, fn *ssa.Function, typ string, blockLen, cr
 				}
 				st.Events = append(st.Events, strings.TrimPrefix(n, cbor+".")+"@"+via)
 			case n == "pkg/bpv7.ExtensionBlockManager.ReadBlock":
-				rd := st.Resolve(core.CallArgs(x)[1])
+				rd := st.Resolve(core.Arg(x, 1))
 				via := "raw"
 				if tee, ok := st.Data["tee"].(*ssa.Call); ok && rd == ssa.Value(tee) {
 					via = "tee"
@@ -181,7 +181,7 @@ func runBlockDecoder(p *core.Program, fn *ssa.Function, typ string, blockLen, cr
 				st.Events = append(st.Events, "ReadBlock@"+via)
 			case n == cbor+".WriteArrayLength":
 				v := "?"
-				if k, ok := st.Known(core.CallArgs(x)[0]); ok {
+				if k, ok := st.Known(core.Arg(x, 0)); ok {
 					v = fmt.Sprint(k)
 				}
 				st.Events = append(st.Events, "ReplayArrayLength("+v+")")
@@ -199,7 +199,7 @@ func runBlockDecoder(p *core.Program, fn *ssa.Function, typ string, blockLen, cr
 		cp := crcPath{outcome: pr.ErrOutcome(0), events: pr.State.Events}
 		for _, c := range pr.State.Taken {
 			if call, ok := core.CondIsCall(c, "bytes.Equal"); ok && c.True {
-				a0, a1 := core.CallArgs(call)[0], core.CallArgs(call)[1]
+				a0, a1 := core.Arg(call, 0), core.Arg(call, 1)
 				okCalc, okWire := false, false
 				for _, a := range []ssa.Value{a0, a1} {
 					if ex, ok := a.(*ssa.Extract); ok && ex.Index == 0 {
@@ -398,7 +398,7 @@ func checkCRCEncoders(p *core.Program, r *core.Report) {
 		// MultiWriter includes the crc buffer that calculateCRCBuff reads
 		okBuf := false
 		for _, a := range core.CallArgs(mw[0]) {
-			if core.DependsOn(a, func(v ssa.Value) bool { return v == core.CallArgs(calc[0])[0] }) {
+			if core.DependsOn(a, func(v ssa.Value) bool { return v == core.Arg(calc[0], 0) }) {
 				okBuf = true
 			}
 		}
@@ -409,7 +409,7 @@ func checkCRCEncoders(p *core.Program, r *core.Report) {
 		r.Check(g, base+"only-if-declared", "a CRC is computed and written iff the block declares one", p.Pos(calc[0].Pos()), "", "calculateCRCBuff not under HasCRC(); "+condStrings(conds))
 		okVal := false
 		for _, w := range core.CallsTo(fn, cbor+".WriteByteString") {
-			if ex, ok := core.CallArgs(w)[0].(*ssa.Extract); ok && ex.Tuple == calc[0].(ssa.Value) && ex.Index == 0 {
+			if ex, ok := core.Arg(w, 0).(*ssa.Extract); ok && ex.Tuple == calc[0].(ssa.Value) && ex.Index == 0 {
 				okVal = true
 				// and it is the last write
 				okLast, _ := core.MustPassAfter(w, func(i ssa.Instruction) bool {
@@ -421,7 +421,7 @@ func checkCRCEncoders(p *core.Program, r *core.Report) {
 		}
 		r.Check(okVal, base+"fresh-value", "the serialiser writes the value it just computed (never the cached CRC field)", p.Pos(calc[0].Pos()), "", "WriteByteString does not take calculateCRCBuff's result")
 		// the CRC type passed is the block's own
-		r.Check(pathEndsWith(core.CallArgs(calc[0])[1], "CRCType"), base+"own-type", "the CRC is computed for the block's own CRC type", p.Pos(calc[0].Pos()), "", "type argument is not the block's CRCType")
+		r.Check(pathEndsWith(core.Arg(calc[0], 1), "CRCType"), base+"own-type", "the CRC is computed for the block's own CRC type", p.Pos(calc[0].Pos()), "", "type argument is not the block's CRCType")
 		// announced array length has a CRC slot iff HasCRC (path enumeration over the flag predicates)
 		checkAnnouncedLength(p, r, fn, typ)
 	}
@@ -456,7 +456,7 @@ func checkAnnouncedLength(p *core.Program, r *core.Report, fn *ssa.Function, typ
 				n := shortName(core.CalleeName(c))
 				switch {
 				case n == cbor+".WriteArrayLength":
-					if k, ok := st.Known(core.CallArgs(c)[0]); ok {
+					if k, ok := st.Known(core.Arg(c, 0)); ok {
 						st.Events = append(st.Events, fmt.Sprintf("A(%d)", k))
 					} else {
 						st.Events = append(st.Events, "A(?)")
@@ -524,7 +524,7 @@ func checkCRCConfig(p *core.Program, r *core.Report) {
 		}
 		c, ok := st.Val.(*ssa.Call)
 		if ok && core.CalleeName(c) == w.callee {
-			if k, isC := core.ConstInt(core.CallArgs(c)[0]); isC && k == w.poly {
+			if k, isC := core.ConstInt(core.Arg(c, 0)); isC && k == w.poly {
 				found[g.Name()] = true
 			}
 		}
@@ -590,8 +590,8 @@ func checkCRCConfig(p *core.Program, r *core.Report) {
 	// zeroed field appended before the checksum: WriteByteString(emptyCRC(type), buff) dominates the checksum calls
 	okZero := false
 	for _, w := range core.CallsTo(calc, cbor+".WriteByteString") {
-		if ex, ok := core.CallArgs(w)[0].(*ssa.Extract); ok {
-			if ec, ok := ex.Tuple.(*ssa.Call); ok && core.NameIs(core.CalleeName(ec), bp7+".emptyCRC") && core.Strip(core.CallArgs(w)[1]) == ssa.Value(calc.Params[0]) {
+		if ex, ok := core.Arg(w, 0).(*ssa.Extract); ok {
+			if ec, ok := ex.Tuple.(*ssa.Call); ok && core.NameIs(core.CalleeName(ec), bp7+".emptyCRC") && core.Strip(core.Arg(w, 1)) == ssa.Value(calc.Params[0]) {
 				okZero = true
 				for _, name := range []string{"github.com/howeyc/crc16.Checksum", "hash/crc32.Checksum"} {
 					for _, c := range core.CallsTo(calc, name) {
